@@ -990,6 +990,11 @@ class Executor:
                 if self.spec_mode:
                     # a clause reading a field the alternative does not have must guard the read (spec-defined)
                     self.raise_if(state, z3.BoolVal(True), "AttributeError")
+                if getattr(self.reg.shapes[o.shape], "open_attrs", False):
+                    # declared open: the object may carry further attributes the contract says nothing about
+                    v = VOpaque(fresh_name("attr_" + attr))
+                    o.fields[attr] = v
+                    return v
                 raise Unsupported("attribute %s not declared in shape %s" % (attr, o.shape))
             if o.kind == "exc" or self.spec_mode:
                 self.raise_if(state, z3.BoolVal(True), "AttributeError")
